@@ -219,7 +219,19 @@ func (cs *ContractSet) ParseContractFile(pkgPath, filename string, f *ast.File, 
 				return fmt.Errorf("%s:%d: clause %q outside a func block", filename, l.line, kw)
 			}
 			switch kw {
-			case "requires", "ensures", "invariant", "decreases", "modifies":
+			case "modifies":
+				for _, part := range splitTop(rest, ',') {
+					cl, err := mk(strings.TrimSpace(part))
+					if err != nil {
+						return err
+					}
+					if curLoop != nil {
+						curLoop.Modifies = append(curLoop.Modifies, cl)
+					} else {
+						cur.Modifies = append(cur.Modifies, cl)
+					}
+				}
+			case "requires", "ensures", "invariant", "decreases":
 				cl, err := mk(rest)
 				if err != nil {
 					return err
@@ -239,12 +251,6 @@ func (cs *ContractSet) ParseContractFile(pkgPath, filename string, f *ast.File, 
 						return fmt.Errorf("%s:%d: decreases outside loop", filename, l.line)
 					}
 					curLoop.Decreases = cl
-				case "modifies":
-					if curLoop != nil {
-						curLoop.Modifies = append(curLoop.Modifies, cl)
-					} else {
-						cur.Modifies = append(cur.Modifies, cl)
-					}
 				}
 			case "loop":
 				n, err := strconv.Atoi(strings.TrimSuffix(strings.TrimSpace(rest), ":"))
